@@ -142,7 +142,7 @@ func (m *Model) judgeESDTTransfer(c *Call, v *Verdict) {
 	default:
 		return
 	}
-	if msg != nil && (msg.Done || msg.Fn != c.Fn) {
+	if msg != nil && (msg.Done || msg.Fn != c.Fn || msg.Kind != "transfer") {
 		return
 	}
 	v.Known = true
@@ -229,7 +229,7 @@ func (m *Model) judgeNFTTransfer(c *Call, v *Verdict) {
 	}
 	// destination side: only a protocol message can stand behind it
 	msg := m.msg(c.MsgID)
-	if msg == nil || msg.Done || msg.Fn != c.Fn || m.local(c.Caller, c.Shard) || !m.local(c.Rcv, c.Shard) {
+	if msg == nil || msg.Done || msg.Fn != c.Fn || msg.Kind != "transfer" || len(msg.Items) == 0 || m.local(c.Caller, c.Shard) || !m.local(c.Rcv, c.Shard) {
 		return
 	}
 	v.Known, v.Side = true, "dest"
@@ -362,7 +362,7 @@ func (m *Model) judgeMulti(c *Call, v *Verdict) {
 		return
 	}
 	msg := m.msg(c.MsgID)
-	if msg == nil || msg.Done || msg.Fn != c.Fn || m.local(c.Caller, c.Shard) || !m.local(c.Rcv, c.Shard) {
+	if msg == nil || msg.Done || msg.Fn != c.Fn || msg.Kind != "transfer" || len(msg.Items) == 0 || m.local(c.Caller, c.Shard) || !m.local(c.Rcv, c.Shard) {
 		return
 	}
 	v.Known, v.Side = true, "dest"
